@@ -238,11 +238,17 @@ def foreign_variants(res, chunks, rng, k, generated=False):
     bits set in a waveform chunk's format word.  What is present means what it says: the envelopes whose chunks are there load
     exactly as from the complete file; format and channels come from the documented low bits."""
     base = snapshot.snap_synth(workload.load(iffparse.build(chunks)))["module"]["payload"]
-    kind = ("one-envelope-missing", "chff-extra-bits")[k % 2]
+    kind = ("one-envelope-missing", "chff-extra-bits", "waveform-block-missing")[k % 3]
     out, skip, cur, dropped, touched = [], False, None, None, []
     # (for instruments written by this library the volume envelope chunk stays: its record's old 12-point table is filled from the
     #  current envelope, whatever its length, and only means something together with that chunk)
     victim = rng.choice([0x103, 0x103, 0x104, 0x105, 0x108] + ([] if generated else [0x102])) if kind == "one-envelope-missing" else None
+    if kind == "waveform-block-missing":
+        # a slot whose record (CHNM 2n+1) is there but whose waveform block (CHNM 2n+2) is not: format and channels are what
+        # the record says
+        blocks = [struct.unpack("<I", pl_)[0] for cid_, pl_ in chunks if cid_ == b"CHNM" and len(pl_) == 4]
+        wave = [b for b in blocks if 2 <= b < 0x100 and b % 2 == 0]
+        victim = rng.choice(wave) if wave else None
     for cid, pl in chunks:
         if cid == b"CHNM":
             (cur,) = struct.unpack("<I", pl)
@@ -280,6 +286,12 @@ def foreign_variants(res, chunks, rng, k, generated=False):
             return
     for slot, s in base["samples"].items():
         g = got["samples"].get(slot)
+        if kind == "waveform-block-missing" and dropped == 2 * slot + 2:
+            if g is not None and (g["format"], g["channels"]) != (s["format"], s["channels"]):
+                res.violation(f"C16:foreign-variant:{kind}:sample", f"{kind}: slot {slot} has its record but no waveform block; it loads with format/channels {(g['format'], g['channels'])}, "
+                                                                    f"its record says {(s['format'], s['channels'])}", desc)
+                return
+            continue
         if g is None or (g["format"], g["channels"], g["data"]) != (s["format"], s["channels"], s["data"]):
             res.violation(f"C16:foreign-variant:{kind}:sample", f"{kind} ({touched}): sample {slot} loads with format/channels {None if g is None else (g['format'], g['channels'])}, "
                                                                 f"the documented bits say {(s['format'], s['channels'])}", desc)
